@@ -160,11 +160,12 @@ func (r *ref) pop() {
 
 // a view as the reference sees it: base content + local writes (nil = deleted)
 type rview struct {
-	v      db.DB
-	base   map[string][]byte
-	parent *rview            // a snapshot reads through its (live) parent: writes are visible to descendants
-	local  map[string][]byte // value nil => deleted locally
-	sub    []byte            // non-nil: this view is parent.Subset(sub): a window, writes go to the parent
+	v             db.DB
+	base          map[string][]byte
+	parent        *rview            // a snapshot reads through its (live) parent: writes are visible to descendants
+	local         map[string][]byte // value nil => deleted locally
+	sub           []byte            // non-nil: this view is parent.Subset(sub): a window, writes go to the parent
+	frontierBased bool              // opened at the frontier (or zero): deleted keys of the frontier may surface with a nil value
 }
 
 // own writes of the view as its Changes() must report them
@@ -179,6 +180,22 @@ func (rv *rview) writes() map[string][]byte {
 		return m
 	}
 	return rv.local
+}
+
+// may the iterator legitimately yield nil-valued entries (the store's convention for deleted keys)?
+func (rv *rview) nilAllowed() bool {
+	if rv.frontierBased {
+		return true
+	}
+	for _, v := range rv.local {
+		if v == nil {
+			return true
+		}
+	}
+	if rv.parent != nil {
+		return rv.parent.nilAllowed()
+	}
+	return false
 }
 
 func (rv *rview) write(k []byte, v []byte) {
@@ -444,7 +461,7 @@ func (s *seqRun) doGet(slot int) {
 	if id != s.r.frontier() && !id.IsZero() {
 		s.tag["historical-view"] = true
 	}
-	s.views[slot] = &rview{v: v, base: s.r.states[id], local: map[string][]byte{}}
+	s.views[slot] = &rview{v: v, base: s.r.states[id], local: map[string][]byte{}, frontierBased: id == s.r.frontier() || id.IsZero()}
 }
 
 // open a view at id and scan it completely
@@ -462,11 +479,15 @@ func (s *seqRun) scanAt(id types.HashHeight) {
 	}
 	rv := &rview{v: v, base: s.r.states[id], local: map[string][]byte{}}
 	s.views[s.nview] = rv
+	rv.frontierBased = id == s.r.frontier() || id.IsZero()
 	it := v.NewIterator(nil)
 	l := Lst()
 	var got bytes.Buffer
 	for it.Next() {
 		if it.Value() == nil {
+			if !rv.nilAllowed() {
+				s.out.Oracle(false, "historical-scan-lists-absent-key", M{"key": fmt.Sprintf("%x", it.Key())})
+			}
 			continue
 		}
 		l = append(l, Tup(Byt(it.Key()), Byt(canonVal(it.Key(), it.Value()))))
@@ -539,6 +560,10 @@ func (s *seqRun) doRead(slot int, rv *rview) {
 		var got bytes.Buffer
 		for it.Next() {
 			if it.Value() == nil {
+				// a historical view must not list keys that were absent at its commit, not even with a nil value
+				if !rv.nilAllowed() {
+					s.out.Oracle(false, "historical-scan-lists-absent-key", M{"key": fmt.Sprintf("%x", it.Key())})
+				}
 				continue
 			}
 			l = append(l, Tup(Byt(it.Key()), Byt(canonVal(it.Key(), it.Value()))))
